@@ -35,7 +35,7 @@ MAX_SAMPLES = 12
 
 
 # -- process-level settings an application may have changed before it calls the library (part of the environment) ---------------
-#   * warnings attributed to dpapi_ng are ALWAYS errors (python -W error / PYTHONWARNINGS=error / pytest filterwarnings=error):
+#   * warnings are ALWAYS errors (python -W error / PYTHONWARNINGS=error / pytest filterwarnings=error):
 #     under the default filters a warning has no effect, so running with the strict filter loses nothing
 #   * DEBUG logging of the dpapi_ng loggers is switched on for every second shard (a function of the shard, recorded in each violation
 #     and re-applied by --replay), so both the logging and the non-logging paths of the library are explored
@@ -57,7 +57,8 @@ def apply_ambient(debuglog: bool) -> None:
     import logging
     import warnings
 
-    warnings.filterwarnings("error", module=r"dpapi_ng(\.|$)")
+    warnings.simplefilter("error")  # every warning, whichever module it is attributed to (stacklevel tricks included)
+    warnings.simplefilter("ignore", ResourceWarning)  # (unclosed in-memory transports of the harness itself)
     AMBIENT["debuglog"] = bool(debuglog)
     lg = logging.getLogger("dpapi_ng")
     if not any(isinstance(h, logging.Handler) and getattr(h, "_verif", False) for h in lg.handlers):
